@@ -5,6 +5,8 @@ From Coq Require Import List NArith Bool Arith Sorted.
 From Coq Require Import Strings.Byte.
 Require Import BS.Bytes BS.Common BS.Api BS.Layout BS.Format BS.FormatFacts BS.Spec BS.SpecStep BS.Sections.
 Require Import BS.FS BS.FSFacts BS.Meta BS.MetaFacts BS.Header BS.Reader BS.ReaderFacts BS.Index BS.Data BS.DataFacts BS.Seek BS.SeekFacts BS.Series BS.SeriesFacts BS.ReadAllFacts BS.CacheFacts BS.LevelFacts.
+Require Import BS.EstimateGenFacts.
+Require BSgen.EstimateGen.
 Import ListNotations.
 
 (* (I) the line estimate of a cache level never panics (saturating subtraction after the fix), except in the
@@ -68,3 +70,23 @@ Proof. exact read_n_levels_total. Qed.
 Print Assumptions C11_read_n_total.
 (* not proved: WHICH level the loop settles on is the one Layer S's read_n_allowed prefers (the judge checks the answer
    against every admissible level); the state after reopen is C09. *)
+
+(* Tie 1 for the line estimate: gen/EstimateGen.v is translated on every run from RoughPos::estimate_lines in
+   /repo/src/seek/estimate.rs (tools/translate_estimate.py). The translated sixteen-arm match IS the match of the model
+   about which the totality of the level loop is proved, and its only panicking arm is the one the source marks
+   unreachable!() - re-checked against the current source text on every run *)
+Theorem C11_source_estimate_is_model : forall r p dl,
+  estimate_lines r p dl
+  = match BSgen.EstimateGen.gen_estimate_bytes (start_area_ r) (end_area_ r) p dl with
+    | Ok mm => Ok ((fst mm / line_size p)%N, (snd mm / line_size p)%N)
+    | Err e => Err e
+    | Panic => Panic
+    | OutOfFuel => OutOfFuel
+    end.
+Proof. exact gen_estimate_is_model. Qed.
+Print Assumptions C11_source_estimate_is_model.
+Theorem C11_source_estimate_total : forall sa ea p dl,
+  (match sa, ea with STillEnd _, EWindow _ _ => False | _, _ => True end) ->
+  exists mx mn, BSgen.EstimateGen.gen_estimate_bytes sa ea p dl = Ok (mx, mn).
+Proof. exact gen_estimate_total. Qed.
+Print Assumptions C11_source_estimate_total.
